@@ -352,7 +352,8 @@ class _GenerateChildren:
     def inputs(self, B):
         mk = sym_prv_node if self.private else sym_pub_node
         ref, n = mk(B, "self", with_parent=False, depth_hi=240)
-        a, b = B.int("start", 0, 2 ** 32), B.int("end", 0, 2 ** 32 + 1)
+        a = B.int("start", 0, 2 ** 32)
+        b = B.int("end", 0, 2 ** 32 + 1) if not B.concrete else min(2 ** 32, max(0, a + B.int("rows", -1, 4)))
         return [ref], dict(interval=(a, b)), NS(n=n, a=a, b=b)
 
     def modifies(self, c, I):
